@@ -28,7 +28,7 @@ WildMatch(h, d, psl) ==
 SubOfAny(h, D, psl) == h # <<>> /\ \E d \in D : IF IsWild(d) THEN WildMatch(h, d, psl) ELSE Sub(h, d)
 
 (* ---- abstract PSL: one rule of each kind ---- *)
-PSLNormal    == { <<Str("org")>>, <<Str("com")>>, <<Str("net")>>, <<Str("uk")>>, <<Str("ck")>> }   \* ICANN, one label
+PSLNormal    == { <<Str("org")>>, <<Str("com")>>, <<Str("net")>>, <<Str("uk")>>, <<Str("ck")>>, <<Str("be")>> }   \* ICANN, one label
 PSLTwo       == { <<Str("co"), Str("uk")>> }                                            \* ICANN, two labels
 PSLWildcard  == { <<Str("ck")>> }                                                    \* *.ck
 PSLException == { <<Str("www"), Str("ck")>> }                                          \* !www.ck
